@@ -326,6 +326,80 @@ def run(rep):
     rep.ob("R5-interference-indexing", ig.name, idx_ok, ig.file, ig.lo,
            "ops[..] must be indexed with the enumerate() index of the live_out row it is combined with")
 
+    # ---- R6 spill code: every rewritten instruction goes through the store-back of its spilled defs ----------------------
+    sp = F.fn(RA + "::spill")
+    pushes = [(bi, tt) for bi, tt in sp.calls() if (tt.get("fp", "")).endswith("Vec::<T, A>::push") and panics.origin_var(sp, tt["a"][0]) == "spilled"]
+    dcall = [(bi, tt) for bi, tt in sp.calls() if (tt.get("fp", "")).endswith("Op::def_registers")]
+    ucall = [(bi, tt) for bi, tt in sp.calls() if (tt.get("fp", "")).endswith("Op::use_registers")]
+    shape = len(dcall) == 1 and len(ucall) == 1 and len(pushes) >= 5
+    rep.ob("R6-spill-shape", sp.name, shape, sp.file, sp.lo,
+           f"spill(): expected one def_registers and one use_registers call per instruction and the refill/op/store pushes (found {len(dcall)}/{len(ucall)}/{len(pushes)})")
+    if shape:
+        dbb, ubb = dcall[0][0], ucall[0][0]
+        # which pushes emit the original instruction
+        orig = []
+        for bi, tt in pushes:
+            r_ = panics.trace_value(sp, tt["a"][1])
+            is_clone = bool(r_ and r_[0] == "call" and re.search(r"<sway_core::asm_lang::Op as core::clone::Clone>::clone$", r_[1].get("rn") or r_[1].get("fn", "")))
+            if is_clone:
+                orig.append((bi, tt))
+                continue
+            # a freshly built Op: allowed before the def/use tables are consulted only for the CFEI/CFSI frame adjustments
+            kinds = set()
+            if r_ and r_[0] == "stmt" and r_[1]["r"]["k"] == "agg":
+                for o in r_[1]["r"]["o"]:
+                    v = panics.trace_value(sp, o) if "l" in o else None
+                    hops = 0
+                    while v and v[0] == "stmt" and v[1]["r"]["k"] == "agg" and hops < 3:
+                        hops += 1
+                        if v[1]["r"].get("adt", "").endswith("VirtualOp"):
+                            kinds.add(v[1]["r"].get("var"))
+                            break
+                        inner = v[1]["r"]["o"][0] if v[1]["r"]["o"] else None
+                        v = panics.trace_value(sp, inner) if inner and "l" in inner else None
+            frame = kinds and kinds <= {"CFEI", "CFSI"}
+            ok = frame or (sp.dominates(dbb, bi) and sp.dominates(ubb, bi))
+            rep.ob("R6-emitted-after-def-use-lookup", f"{sp.name}|push:{'/'.join(sorted(kinds)) or '?'}", ok, sp.file, tt["ln"],
+                   f"spill() emits a {sorted(kinds) or 'new'} instruction on a path that has not looked up the instruction's use/def registers: "
+                   "a spilled register it defines is not stored back to its slot (later refills read a stale value), or a spilled operand is not refilled")
+        rep.ob("R6-original-op-emitted-once", sp.name, len(orig) == 1, sp.file, sp.lo, f"expected exactly one push of `op.clone()` (found {len(orig)})")
+        if len(orig) == 1:
+            obi = orig[0][0]
+            # the store-back loop: BTreeSet::iter on the def_registers() result
+            store_iter = [bi for bi, tt in sp.calls() if re.search(r"BTreeSet::<T, A>::iter$", tt.get("fp", "")) and
+                          _derives_from_call(sp, tt["a"][0], dcall[0][1])]
+            refill_iter = [bi for bi, tt in sp.calls() if re.search(r"BTreeSet::<T, A>::iter$", tt.get("fp", "")) and
+                           _derives_from_call(sp, tt["a"][0], ucall[0][1])]
+            # loop header of the main loop: the Enumerate::next that yields `op`
+            heads = [bi for bi, tt in sp.calls() if (tt.get("rn") or tt.get("fp", "")).endswith("Enumerate<I> as core::iter::traits::iterator::Iterator>::next")]
+            head = [h for h in heads if obi in sp.reachable(h) and h in sp.reachable(obi)]
+            ok_store = bool(store_iter) and bool(head) and all(h not in sp.reachable(obi, avoid=set(store_iter)) or h == obi for h in head)
+            rep.ob("R6-defs-stored-after-op", sp.name, ok_store, sp.file, orig[0][1]["ln"],
+                   "a path from the emitted instruction to the next one skips the loop that stores its spilled def registers to their stack slots")
+            ok_refill = bool(refill_iter) and all(sp.dominates(r, obi) for r in refill_iter)
+            rep.ob("R6-uses-refilled-before-op", sp.name, ok_refill, sp.file, orig[0][1]["ln"],
+                   "the instruction is emitted on a path that skips the loop refilling its spilled use registers")
+            # stores are SW [.., def] and refills LW [use, ..]: the register operand is the loop variable
+        # the slot table is shared: both loops index spill_offsets_bytes with the register they handle
+    rep.floor("R6-emitted-after-def-use-lookup", 4)
+
+
+def _derives_from_call(f, o, call, depth=8):
+    defs = mir.defs_of(f)
+    while depth > 0 and "l" in o:
+        depth -= 1
+        ds = defs.get(o["l"], [])
+        if len(ds) != 1:
+            return False
+        _, _, k, srcs, node = ds[0]
+        if k == "call":
+            return node is call
+        if k in ("use", "ref") and srcs:
+            o = srcs[0]
+            continue
+        return False
+    return False
+
 
 def _names(e):
     """identifier names in a small argument expression (r1, i.clone(), *i, &r1)"""
